@@ -83,6 +83,9 @@ type stlCue struct {
 	UserData bool // an EBN 0xFE block: denotes no cue
 	CS, CF   byte
 	SGN      byte
+	EBN      byte        // extension block number of a subtitle block (0 = 0xFF)
+	Elems    [][]stlElem // when set: the rows as element sequences (Rows = what they denote)
+	Raw      []byte      // when set: the text field as given (padded with 0x8F)
 }
 type stlFile struct {
 	FPS                                        int
@@ -97,6 +100,7 @@ type stlFile struct {
 	CO, PUB, EN, ECD                           string
 	UDA                                        string
 	Blocks                                     []stlCue
+	Forms                                      *stlGSIForms // nil: the plain rendering
 }
 
 // exact instant of a timecode in units of 1/fps ns (i.e. ns * fps), so that no rounding is involved
@@ -205,6 +209,27 @@ func renderSTLRow(r *rng, runs []stlRun, teletext bool, rd stlRendering) []byte 
 
 func renderSTLText(r *rng, c stlCue, teletext bool) []byte {
 	var tf []byte
+	if c.Raw != nil {
+		return append(tf, c.Raw...)
+	}
+	if c.Elems != nil {
+		for i, row := range c.Elems {
+			if i > 0 {
+				tf = append(tf, 0x8a)
+			}
+			if teletext {
+				if r.chance(1, 3) {
+					tf = append(tf, byte(1+r.intn(7)))
+				}
+				tf = append(tf, 0x0b)
+			}
+			tf = append(tf, stlElemBytes(row)...)
+			if teletext && r.chance(1, 2) {
+				tf = append(tf, 0x0a)
+			}
+		}
+		return tf
+	}
 	rd := stlRendering{r.chance(1, 2), r.chance(1, 2), r.chance(2, 3), r.chance(1, 3), r.chance(1, 4)}
 	for i, row := range c.Rows {
 		if i > 0 {
@@ -231,8 +256,21 @@ func renderGSI(r *rng, f *stlFile) []byte {
 	for i := range g {
 		g[i] = ' '
 	}
-	put := func(off, n int, s string) { copy(g[off:off+n], padField(s, n)) }
-	num := func(off, n, v int) { put(off, n, fmt.Sprintf("%0*d", n, v)) }
+	put := func(off, n int, s string) {
+		if f.Forms != nil && off >= 16 {
+			s = f.Forms.text(n, s)
+		}
+		copy(g[off:off+n], padField(s, n))
+	}
+	ni := 0
+	num := func(off, n, v int) {
+		if f.Forms != nil {
+			copy(g[off:off+n], padField(f.Forms.num(ni%8, n, v), n))
+			ni++
+			return
+		}
+		copy(g[off:off+n], padField(fmt.Sprintf("%0*d", n, v), n))
+	}
 	put(0, 3, f.CPN)
 	put(3, 8, fmt.Sprintf("STL%02d.01", f.FPS))
 	g[11] = f.DSC
@@ -245,8 +283,8 @@ func renderGSI(r *rng, f *stlFile) []byte {
 	put(144, 32, f.TN)
 	put(176, 32, f.TCD)
 	put(208, 16, f.SLR)
-	put(224, 6, f.CD)
-	put(230, 6, f.RD)
+	copy(g[224:230], padField(f.CD, 6))
+	copy(g[230:236], padField(f.RD, 6))
 	num(236, 2, f.RN)
 	num(238, 5, f.TNB)
 	num(243, 5, f.TNS)
@@ -254,8 +292,18 @@ func renderGSI(r *rng, f *stlFile) []byte {
 	num(251, 2, f.MNC)
 	num(253, 2, f.MNR)
 	g[255] = f.TCS
-	put(256, 8, tcString(f.TCP))
-	put(264, 8, tcString(f.TCF))
+	copy(g[256:264], tcString(f.TCP))
+	copy(g[264:272], tcString(f.TCF))
+	if f.Forms != nil && f.Forms.TCPBl && f.TCP == (stlTC{}) {
+		copy(g[256:264], "        ")
+		stlCount("stl.free.gsi_blank_timecode")
+	}
+	if f.Forms != nil && f.Forms.Spare {
+		for i := 373; i < 448; i++ {
+			g[i] = byte(r.intn(256))
+		}
+		stlCount("stl.free.gsi_spare_bytes")
+	}
 	num(272, 1, f.TND)
 	num(273, 1, f.DSN)
 	put(274, 3, f.CO)
@@ -287,6 +335,9 @@ func renderSTL(r *rng, f *stlFile) []byte {
 			}
 		} else {
 			t[3] = 0xff
+			if c.EBN != 0 {
+				t[3] = c.EBN
+			}
 			tf = renderSTLText(r, c, f.DSC != '0')
 			sn++
 		}
@@ -491,10 +542,35 @@ func randSTLFile(r *rng, maxCues int, styled, dollar bool) *stlFile {
 				break
 			}
 		}
+		if styled && r.chance(1, 3) {
+			// rows as arbitrary element sequences; Rows = what they denote
+			c.Elems = randSTLElemRows(r)
+			c.Rows = nil
+			for _, row := range c.Elems {
+				if runs := stlDenoteElems(row); len(runs) > 0 {
+					c.Rows = append(c.Rows, runs)
+				}
+			}
+			stlCount("stl.free.element_rows")
+		}
+		if r.chance(1, 4) {
+			c.CF = byte(r.intn(2))
+			c.EBN = byte(r.intn(0xf0))
+			if c.EBN != 0 {
+				stlCount("stl.free.extension_block_number")
+			}
+		}
+		if r.chance(1, 8) {
+			c.JC = byte(4 + r.intn(252))
+			stlCount("stl.free.justification_byte_above_3")
+		}
 		f.Blocks = append(f.Blocks, c)
 	}
 	if r.chance(1, 6) {
 		f.Blocks = append(f.Blocks, stlCue{UserData: true})
+	}
+	if styled && r.chance(1, 2) {
+		f.Forms = randSTLGSIForms(r)
 	}
 	f.TNB = len(f.Blocks)
 	for _, c := range f.Blocks {
